@@ -212,6 +212,9 @@ func (p *Secp256k1Point) UnmarshalBinary(data []byte) error {
 	if len(data) != 33 {
 		return fmt.Errorf("invalid length for secp256k1Point: %d", len(data))
 	}
+	if data[0] != 2 && data[0] != 3 {
+		return fmt.Errorf("secp256k1Point.UnmarshalBinary: invalid prefix %d", data[0])
+	}
 	p.value.Z.SetInt(1)
 	if p.value.X.SetByteSlice(data[1:]) {
 		return fmt.Errorf("secp256k1Point.UnmarshalBinary: x coordinate out of range")
